@@ -10,13 +10,13 @@ def spec(tier):
         keys = "none,oct:32,oct:64,oct:128,rsa:2048,rsa:3072,rsapss:2048,ec:P-256,ec:P-384,ec:P-521,ec:secp256k1,okp:Ed25519,okp:Ed448"
     # configured alg: none, one per family, INVAL; key alg attribute: absent, "none", matching family members, unknown
     return ("prov=0,1;route=0..9;cfg=0,1,2,4,7,8,10,13,14,15;keys=%s;kalg=-1,0,1,4,7,8,9,10,13,14,15;pub=0,1;"
-            "hdr=0..49;sig=0,1,2,6,7,8,9;op=v,g" % keys)
+            "hdr=0..63;sig=0,1,2,6,7,8,9;op=v,g" % keys)
 
 
 def run(tier, seed, replay):
     rep = vf.Report("C03", tier, seed)
     rep.rule = ("complete enumeration of checker/builder configuration (route x explicit alg x key x key alg attribute x "
-                "public/private) x token shape (50 header-alg variants x {empty, garbage, valid signature, two segments, "
+                "public/private) x token shape (64 header-alg variants x {empty, garbage, valid signature, two segments, "
                 "'h.p..x', trailing dot, padding-only}); distinct = distinct (route, has key, explicit alg?, key alg?, "
                 "token shape class, signature empty?, outcome) tuples")
     rep.assumptions = ["a callback that withdraws a key set by setkey is not generated (statement silent)",
